@@ -25,3 +25,28 @@ func VK01dOverlay() {
 	vrt.Assert(len(lower.Refs) == lowerBefore, "the lower layer is never written")
 	vrt.Cover("done")
 }
+
+// VK01dOverlayReads: 4 blobs, each absent / in the lower layer / in the upper layer / in the lower
+// layer and deleted through the overlay; one read (fetch, stat, or enumerate with any cursor and
+// limit) must answer like the map (lower minus tombstones) + upper.
+func VK01dOverlayReads() {
+	blobs := vmodel.SmallBlobs(4)
+	lower, upper, del := &vmodel.Store{}, &vmodel.Store{}, &vmodel.KV{}
+	var have uint
+	for _, i := range []int{2, 0, 3, 1} {
+		switch vrt.Choice(4) {
+		case 1:
+			lower.Put(blobs[i].Ref, []byte(blobs[i].Data))
+			have |= 1 << uint(i)
+		case 2:
+			upper.Put(blobs[i].Ref, []byte(blobs[i].Data))
+			have |= 1 << uint(i)
+		case 3:
+			lower.Put(blobs[i].Ref, []byte(blobs[i].Data))
+			del.Set(blobs[i].Ref.String(), "1")
+		}
+	}
+	sto := &overlayStorage{lower: lower, upper: upper, deleted: del}
+	vmodel.SeqReads(sto, blobs, have, 1)
+	vrt.Cover("done")
+}
